@@ -145,6 +145,9 @@ def plan_history(rng, T, rate, first_scratch=False):
         has_mux = any(tmpl[x]["kind"] == "PMux" for x in cur)
         detour = rng.random() < rate
         how = rng.choice(["extra", "replace", "rename_late", "intermediate", "other_params", "move", "shadow"]) if detour else "direct"
+        if c["kind"] == "PMux":
+            # (fixed shares of the muxes: the mux-specific detours must not depend on luck)
+            how = rng.choice(["intermediate", "intermediate", "other_params", "other_params", how])
         if how == "move":
             # the component is first hung on the wrong parent, the system is analysed, then the component is moved
             # (deleted and re-added under its real parent - node index and edge count are the same as before)
@@ -160,7 +163,7 @@ def plan_history(rng, T, rate, first_scratch=False):
                 cur[n] = n
                 used.append("move")
                 continue
-        if how in ("replace", "other_params", "rename_late") and c["kind"] == "PMux" and rng.random() < 0.6:
+        if how in ("replace", "other_params", "rename_late") and c["kind"] == "PMux" and rng.random() < 0.8:
             # the mux is connected to one input through a TEMPORARY rail name of that input; the input's rail is
             # changed to its final value afterwards (the mux must keep following the component, not the string)
             k = rng.randrange(len(parents_now))
